@@ -4,6 +4,7 @@ import SimpleDnsModel.Model.Compress
 import SimpleDnsModel.Model.NameText
 import SimpleDnsModel.Model.Txt
 import SimpleDnsModel.Model.Mdns
+import SimpleDnsModel.Spec.RdataSchemas
 import SimpleDnsModel.Spec.NameDecode
 import SimpleDnsModel.Spec.Rfc1035Header
 open Dns Dns.Text
@@ -66,6 +67,19 @@ def showSorted (xs : List String) : String :=
 def showInstance (i : Mdns.Instance) : String :=
   hexOfBytes i.name ++ " ips " ++ showSorted (i.ips.map fun ip => (if ip.1 then "6:" else "4:") ++ toString ip.2) ++
     " ports " ++ showSorted (i.ports.map toString) ++ " attrs " ++ showAttrs i.attrs
+
+def valToSpec : Val → Spec.SVal
+  | .int n => .num n
+  | .bytes b => .octets b
+  | .name n => .labels n
+  | .strs ss => .strings ss
+  | .tlvs xs => .triples xs
+
+def gwToSpec : Gateway → Spec.GatewaySpec
+  | .none => .none
+  | .v4 a => .ipv4 a
+  | .v6 a => .ipv6 a
+  | .domain n => .name n
 
 def showNamePos (x : Name × Nat) : String := showName x.1 ++ " " ++ toString x.2
 
@@ -211,6 +225,14 @@ def answer (ts : List String) : String :=
         | some now => showSorted ((Mdns.known s service now).map showInstance)
         | none => "bad-op"
       | _ => "bad-op"
+    | _ => "bad-op"
+  | "spec.rdata" :: rest =>
+    match pRData rest with
+    | some (.flat code vs, []) =>
+      match Spec.encode code (vs.map valToSpec) with
+      | some b => "ok " ++ hexOfBytes b
+      | none => "none"
+    | some (.ipseckey p a g k, []) => "ok " ++ hexOfBytes (Spec.encodeIpseckey p a (gwToSpec g) k)
     | _ => "bad-op"
   | ["type", c] =>
     match c.toNat? with
